@@ -153,7 +153,18 @@ prog("not_reorderable", """
 rel e(int,int) input; rel f(int,int) input; rel r(int,int); rel r2(int,int);
 r(x,y) <-- let z = 1, e(x,y), f(y,z);
 r2(x,z) <-- e(x,y), f(y,z);
-""", "core par", bound=4)
+""", "core par life perm", bound=4)
+
+# binders (generator / let) in front of a two-clause join whose SECOND clause uses the bound variable, inside a recursive
+# SCC: the join order may only be swapped at run time when that is unobservable (after a resume the delta is large)
+prog("pre_join_rec", """
+rel e(int,int) input; rel f(int,int) input; rel r(int,int); rel h(int,int); rel g(int,int);
+r(x,y) <-- e(x,y);
+r(x,z) <-- r(x,y), e(y,z);
+h(x,c) <-- for c in 0..2, r(x,y), f(y,c);
+g(x,c) <-- let c = 1, r(x,y), f(y,c);
+r(x,c) <-- h(x,c), f(c,c);
+""", "core par life perm", bound=4)
 
 prog("two_inputs", """
 rel e(int,int) input; rel f(int,int) input; rel j(int,int); rel k(int);
@@ -362,6 +373,21 @@ d(y, dual(undual(l) + 3)) <-- d(x,l), e(y,x);
 r(x,k) <-- d(x,l), let k = undual(l), if k < 4;
 """, "lat par life", bound=4)
 
+prog("lat_pre_join", """
+rel w(int,int,int) input; lat d(int,dual_i32); rel near(int);
+d(0, dual(0));
+d(y, dual(undual(l) + 1)) <-- for k in 0..2, d(x,l), w(x,k,y);
+near(x) <-- d(x,l), if undual(l) <= 1;
+""", "lat par life mono", bound=3, dom=3)
+
+# a lattice read with no bound column by a multiplicity-sensitive aggregate, rows improving over several iterations
+prog("lat_count_all", """
+rel a(int,int) input; rel e(int,int) input; lat m(int,max_i32); rel cnt(int);
+m(x,v) <-- a(x,v);
+m(y,v) <-- m(x,v), e(x,y);
+cnt(n) <-- agg n = count() in m(_,_);
+""", "lat agg par", bound=3, dom=3)
+
 prog("lat_val_bound", """
 rel e(int,int) input; lat d(int,dual_i32); rel at1(int); rel cnt2(int); rel nk(int,int); rel pairs(int,int);
 d(0, dual(0));
@@ -470,6 +496,13 @@ npass(s,n) <-- st(s), agg n = count() in grade(s, PASS);
 top(s,m) <-- st(s), agg m = max(g) in grade(s, g), if m >= HI;
 hi(s) <-- grade(s, g), if g == HI, !grade(s, PASS);
 """, "agg par sugar", bound=4)
+
+# aggregation in FRONT of a two-clause join whose second clause uses the aggregate
+prog("agg_pre_join", """
+rel score(int) input; rel entry(int,int) input; rel level(int,int) input; rel winner(int,int); rel sized(int,int);
+winner(x,m) <-- agg m = max(v) in score(v), entry(x,y), level(y,m);
+sized(x,n) <-- agg n = sum(v) in score(v), entry(x,y), level(y,n);
+""", "agg par", bound=4, dom=3)
 
 # ------------------------------------------------------------------------------------------------ sugar (C07)
 prog("disj", """
@@ -659,3 +692,7 @@ for _s in range(1, 31):
     prog(f"rnd_core_{_s:02d}", _rp.gen_program(1000 + _s, with_agg=False), "core par rnd", bound=2, dom=3)
 for _s in range(1, 16):
     prog(f"rnd_agg_{_s:02d}", _rp.gen_program(2000 + _s, with_agg=True), "agg par rnd", bound=2, dom=3)
+for _s in range(1, 9):
+    prog(f"rnd_prec_{_s:02d}", _rp.gen_program(3000 + _s, with_agg=False, front=True), "core par rnd life", bound=2, dom=3)
+for _s in range(1, 9):
+    prog(f"rnd_prea_{_s:02d}", _rp.gen_program(4000 + _s, with_agg=True, front=True), "agg par rnd", bound=2, dom=3)
